@@ -3,35 +3,46 @@
 SPEC = {
     "level": "model_checking",
     "stages": [{"name": "main", "harness": "C12_ownership.cpp", "config": "san",
-                "deadline": {"quick": 600, "thorough": 3000}}],
+                "deadline": {"quick": 900, "thorough": 4500}}],
     "technique": ("depth-bounded explicit-state BFS over PROGRAMS executed on the real objects in lock-step with a value-level "
                   "reference model of the ownership forest; state = op history re-executed from scratch; canonical dedup"),
-    "rule": ("pool of 3 slots (nothing | raw root PDU* | Tins::Packet). Ops: cons(K), a/=b, new K(a/b), clone, copy-construct, "
-             "copy-assign (same dynamic class, also self), move-construct, move-assign, inner_pdu(ptr) on root or tail (transfer of another "
-             "slot's tree), inner_pdu(0), inner_pdu(const PDU&) on root or tail (also of itself), release_inner_pdu on root or "
-             "parent-of-tail into a free slot, delete, Packet default/clone-wrap/own_pdu-wrap/PtrPacket-wrap/copy/copy-assign (also "
-             "self)/move/move-assign/release_pdu; thorough adds the same typed ops on/from the layer below the root. DEEP: BFS with "
-             "canonical dedup from the empty pool, K in {EthernetII, IP, TCP, RawPDU, DHCP, Dot11Beacon, PDUCacher<IP>}, every program of "
-             "<= 4 (quick) / 5 (thorough) ops. SWEEP: the same BFS (depth 1 quick / 2 thorough, full op alphabet incl. layer-below-root "
-             "variants) from seeded pools for EVERY concrete PDU class K of include/tins (52 + PDUCacher<IP>, PDUCacher<TCP>): one or two "
-             "objects of shapes K, K/TCP, K/TCP/RawPDU, EthernetII/K/RawPDU in every combination (longer over shorter, shorter over longer), "
-             "raw and Packet-wrapped. EXTRA: PDUOption copy/move/assign/self-assign/vector-shift over payload sizes {0,1,7,8,9,16,40}^2, "
-             "TCPStream copy/assign/self-assign with 0..2 buffered fragments per direction. After EVERY step: each live layer reachable "
-             "from exactly one slot, parent_pdu() == owner (null for roots), dynamic class and identity (address) of every surviving layer "
-             "as the model says, a per-class header field ('stamp') of every layer as the model says, every copied / moved / untouched "
-             "layer serializes (alone) to the bytes of its source before the step, every copied / moved / untouched tree serializes to "
-             "the bytes of its source tree, writing a field of a fresh copy changes no other layer's field and no other tree's bytes, no "
-             "ASan/UBSan report; after the program every slot is destroyed and the operator-new ledger must be back at its start value. "
-             "distinct_nontrivial = distinct pool shapes (per slot kind + class chain) with >= 2 live trees one of which has >= 2 layers."),
-    "claim": ("Every program over the op alphabet up to the depth bound is executed (BFS, merged only on equal canonical pools: per "
-              "slot kind, class chain, per-layer bytes, tree bytes, slots unordered) and every typed op is applied to every concrete "
-              "layer class in every shape combination; within these bounds a violation of the ownership / deep-copy invariants cannot be missed."),
-    "note": ("Trusted: ASan/UBSan, the 120-line value model (mstep), per-class stamp accessors (self-tested at start). Canonical keys are "
+    "rule": ("pool of 3 slots (nothing | raw root PDU* | Tins::Packet). Ops: cons(K), a/=b (also Packet/=), new K(a/b), clone, "
+             "copy-construct, copy-assign (same dynamic class, also self), move-construct, move-assign, inner_pdu(ptr) on root or tail "
+             "(transfer of another slot's tree), inner_pdu(0), inner_pdu(const PDU&) on root or tail (also of itself), release_inner_pdu "
+             "on root or parent-of-tail into a free slot, delete, Packet default / clone-wrap (ref and pointer ctor) / own_pdu-wrap / "
+             "PtrPacket-wrap / copy / copy-assign (also self) / move / move-assign / release_pdu; a second op family applies "
+             "clone/copy/move construction and copy/move assignment to and from the layer BELOW the root. "
+             "DEEP: BFS with canonical dedup from the empty pool, K in {EthernetII, IP(+option), TCP(+options), RawPDU, DHCP(+option), "
+             "Dot11Beacon(+ssid), PDUCacher<IP>}: every program of <= 5 ops over the 125-op alphabet (quick); <= 6 ops over the 125-op "
+             "alphabet and <= 5 ops over the 170-op alphabet incl. below-root ops (thorough). "
+             "SWEEP: the same BFS (1 further op quick / 2 thorough, 163-op alphabet incl. below-root ops) from 32 seeded pools for EVERY "
+             "concrete PDU class K of include/tins (51 + PDUCacher<IP>, PDUCacher<TCP> = 53): one or two objects of shapes K, K/TCP, "
+             "K/TCP/RawPDU, EthernetII/K/RawPDU in every combination (longer over shorter, shorter over longer), raw and Packet-wrapped. "
+             "EXTRA: PDUOption<uint8_t,TCP> and PDUOption<uint16_t,DHCPv6> copy/move construct, copy/move assign, self copy-assign, "
+             "vector insert/erase shifting over payload sizes {0,1,7,8,9,16,40}^2; TCPStream copy-construct / copy-assign / self-assign "
+             "with 0..2 buffered fragments per direction on both sides. "
+             "After EVERY step: each live layer reachable from exactly one slot, no pointer to a destroyed layer, parent_pdu() == owner "
+             "(null for roots), dynamic class and identity (address) of every surviving layer as the model says, a per-class header "
+             "field ('stamp', unique per constructed layer) of every layer as the model says, every copied / moved / untouched tree "
+             "serializes as a whole and layer by layer to the bytes of its source tree before the step, writing a field of a fresh copy "
+             "changes no other layer's field and no other tree's bytes, no ASan/UBSan report; after the program every slot is destroyed "
+             "and the operator-new ledger must be back at its start value (confirmed by a second run). "
+             "states = sum over workers of canonically distinct pools (workers overlap by ~1.4x; quick also reports the exact "
+             "distinct_states). distinct_nontrivial = distinct pool shapes (per slot kind + class chain, slots unordered) with >= 2 live "
+             "trees one of which has >= 2 layers."),
+    "claim": ("Every program over the op alphabet up to the depth bound is executed (BFS level by level, merged only on equal canonical "
+              "pools: per slot kind, class chain, per-layer bytes, tree bytes, moved-from marks; slots unordered) and every typed op is "
+              "applied to every concrete layer class in every shape combination; within these bounds a violation of the ownership / "
+              "deep-copy invariants cannot be missed."),
+    "note": ("Trusted: ASan/UBSan, the ~120-line value model (mstep), per-class stamp accessors (self-tested at start). Canonical keys are "
              "compared through two independent 64-bit hashes. Bounds: 3 slots, program length, chain length <= 12. Not covered: assignment "
-             "where the source is a descendant of the target, self-move-assignment, operator/= on an empty Packet (all outside the statement's "
-             "well-defined programs)."),
+             "whose source is a descendant of the target or a different layer of the same tree, self-move-assignment, operator/= on an empty "
+             "Packet (outside the statement's well-defined programs). UBSan type-mismatch reports from a transport layer below a "
+             "PDUCacher<IP> (tins_cast by pdu_flag) are C13's finding and are counted, not judged, here."),
     "assumptions": ["IP layers carry explicit non-zero addresses (a root IP with source 0.0.0.0 consults the host routing table)",
-                    "a moved-from layer is only required to be a valid, destructible, assignable object without children",
-                    "Packet move-assignment is followed by resetting the source (`src = Packet()`), the state of a moved-from Packet being unspecified",
+                    "a moved-from layer is only required to be a valid, destructible, assignable, serializable object without children; "
+                    "a class whose move operations resolve to copies (probed at start) is modelled as copying",
+                    "Packet move-assignment is followed by resetting the source (`src = Packet()`), the content of a moved-from Packet being unspecified",
+                    "observation (serialize of every tree and of every layer alone) after every op is part of every program",
                     "sanitizers: ASan+UBSan (alignment check off)"],
 }
